@@ -491,7 +491,7 @@ func cmdMutate(args []string) int {
 	if *outF != "" {
 		os.WriteFile(*outF, []byte(outb.String()), 0o644)
 	}
-	if *fileF == "" && *funcF == "" && *limit == 0 && !*anyOb && len(ops) == 0 && *propF == "" && *stride <= 1 && !*onlyGen2 {
+	if *fileF == "" && *funcF == "" && *limit == 0 && !*anyOb && len(ops) == 0 && *propF == "" && *stride <= 1 {
 		// a complete sweep: keep its summary next to the triage file
 		byOp := map[string]map[string]int{}
 		var open []map[string]interface{}
@@ -511,7 +511,13 @@ func cmdMutate(args []string) int {
 			"rule": "a mutant is killed when an obligation on the expectation lists of the checks stops being discharged, vanishes, or the contract no longer applies; only the mutated function and its literals are re-verified (modular verification)",
 		}
 		data, _ := json.MarshalIndent(rep, "", " ")
-		os.WriteFile(filepath.Join(verifRoot, "mutation", "report.json"), append(data, '\n'), 0o644)
+		name := "report.json"
+		if *onlyGen2 {
+			name = "report_gen2.json" // the second-generation operators are swept and reported separately
+		} else if *gen2F {
+			name = "report_all.json"
+		}
+		os.WriteFile(filepath.Join(verifRoot, "mutation", name), append(data, '\n'), 0o644)
 	}
 	if *propF != "" {
 		ownN := 0
